@@ -5,8 +5,20 @@ Case grammar (first token = operation; see harness/C04.cpp and ocaml/C04_driver.
   vector argument  = list `n x1 .. xn`
   block grid       = `GR` then per grid row `GC` and GC blocks `r c e11 .. erc`
 Output: matrix `M rows cols e11 e12 ..`, vector `V n e1 ..`, scalars as hex floats, booleans 0/1, `EXIT`.
+
+Call histories: `hist <op> <args>` is the operation <op> on operands that are not fresh: every matrix argument is
+`table k step_1 .. step_k`, every vector argument `list k step_1 .. step_k`; the steps are applied, in order, to the object
+constructed from the table / list before the operation sees it:
+  matrix: rs r c (Resize) | as r c x (Assign) | dr i | dc j (Delete_Row/Column) | st i j x (M[i][j] = x) | cp (copy constructor)
+          | eq (operator= through two objects of other shapes) | se (M = M) | pa T | ma T (M += T, M -= T) | sa | ss (M += M, M -= M)
+          | pl T | mi T (M = M + T, M = M - T) | tr (M = M.Transpose()) | ms x | dv x (M = M * x, M = M / x)
+          | z r c (M = Matrix(r, c)) | df (M = Matrix())
+  vector: rs n | as n x | st i x | cp | eq | se | pa L | ma L | sa | ss | pl L | mi L | ms x (v = v * x) | sm x (v = x * v) | dv x
+          | z n (v = Vector(n)) | df (v = Vector())
+The predicates evaluate every clause against the value a FRESH object would have (reference semantics of the steps: mat_history /
+vec_history below, independent of the Coq model), so an object whose past matters to an operation is a failing input.
 """
-import math, itertools
+import math, itertools, struct, sys
 from fractions import Fraction
 from vcheck import Case, hx, flist, tokf
 
@@ -14,7 +26,8 @@ PID = "C04"
 EPS = 2.0 ** -53
 SLACK = 64 * EPS      # DESIGN 5.3: |y_impl - y_exact| <= 64*eps*sum|t_k| for a sum of terms t_k (a priori, loose against
                       # the (n+1)*eps of the standard rounding model for n <= 8 terms, tight against any index/coefficient change)
-RULE = ("one case = one call of one spelling (or one law evaluated on the implementation's results) on generated operands; "
+RULE = ("one case = one call of one spelling (or one law evaluated on the implementation's results) on generated operands, fresh or "
+        "after a generated call history (Resize, Assign, writes, copies, compound assignments) on the same object; "
         "non-trivial = the case has a non-square matrix operand or a non-conformable pair (shape guard exercised); distinct by case text")
 LEVEL_TEXT = ("Theorems (Coq/MathComp, every shape and every entry, over an arbitrary commutative ring; the exactness laws over any "
               "number type satisfying only x*y=y*x resp. x*1=x, x*0=0, 0+x=x, x+0=x): see evidence.coverage.theorems. The Gallina model "
@@ -24,7 +37,8 @@ LEVEL_NOTE = ("Coq 8.16.1 + MathComp 1.15; theorems are axiom-free; hand-written
               "ExtrOcamlBasic only). Theorems are about exact arithmetic in a commutative ring / field (the exact values of the doubles); "
               "the laws proved from commutativity / unit laws alone hold for IEEE doubles as numbers (==) for finite entries.")
 TOL = (1e-12, 0.0)
-TRUSTED = ["unsigned int dimensions are modelled by nat (no wrap-around below 2^32 entries); int -> unsigned conversion of a negative Sub_Matrix index is modelled as 'not below any row count'"]
+TRUSTED = ["the int arguments of Matrix::Resize / Matrix::Assign are modelled by nat (only non-negative arguments are requested)",
+           "unsigned int dimensions are modelled by nat (no wrap-around below 2^32 entries); int -> unsigned conversion of a negative Sub_Matrix index is modelled as 'not below any row count'"]
 ASSUMPTIONS = ["shapes with zero rows or zero columns are outside the property's quantifier (1<=m,n,k): the theorems about operations that rebuild their result through Matrix(vector<vector<double>>) assume at least one row (a 0 x n result is rebuilt as 0 x 0)"]
 
 SUM_OPS = ["m_plus", "m_minus", "m_op_plus", "m_op_minus", "m_add_assign", "m_sub_assign"]
@@ -35,14 +49,105 @@ VSUM_OPS = ["v_add", "v_sub", "v_add_assign", "v_sub_assign"]
 def mtab(A): return f"{len(A)} " + " ".join(flist(r) for r in A)
 
 
+class ExpectExit(Exception):
+    """a step of the call history is not defined (the library has to terminate the process)"""
+
+
+class Skip(Exception):
+    """the request is outside what the reference semantics covers (undefined behaviour / empty final shape)"""
+
+
+def fdiv(a, s):
+    """IEEE a / s"""
+    if s != 0: return a / s
+    if a == 0 or math.isnan(a): return math.nan
+    return math.copysign(math.inf, a) * math.copysign(1, s)
+
+
 class Rd:
-    def __init__(s, line): s.t = line.split(); s.i = 1; s.op = s.t[0]
+    def __init__(s, line):
+        s.t = line.split(); s.hist = s.t[0] == "hist"; s.i = 2 if s.hist else 1; s.op = s.t[1] if s.hist else s.t[0]
+    def word(s): s.i += 1; return s.t[s.i - 1]
     def int(s): s.i += 1; return int(s.t[s.i - 1])
     def num(s): s.i += 1; return tokf(s.t[s.i - 1])
-    def list(s): n = s.int(); return [s.num() for _ in range(n)]
-    def table(s): n = s.int(); return [s.list() for _ in range(n)]
+    def plain_list(s): n = s.int(); return [s.num() for _ in range(n)]
+    def plain_table(s): n = s.int(); return [s.plain_list() for _ in range(n)]
+    def list(s):
+        v = s.plain_list()
+        return vec_history(s, v) if s.hist else v
+    def table(s):
+        A = s.plain_table()
+        return mat_history(s, A) if s.hist else A
     def block(s):
         r, c = s.int(), s.int(); return (r, c, [[s.num() for _ in range(c)] for _ in range(r)])
+
+
+def mat_history(s, A):
+    """reference semantics of the matrix steps: the value of the object after the history, as a fresh table"""
+    R = len(A); C = len(A[0]) if A else 0; M = [list(r) for r in A]
+    if any(len(r) != C for r in M): raise ExpectExit
+    for _ in range(s.int()):
+        st = s.word()
+        if st == "rs":
+            p, q = s.int(), s.int()
+            M = [[M[i][j] if (i < R and j < C) else 0.0 for j in range(q)] for i in range(p)]; R, C = p, q
+        elif st == "as":
+            p, q = s.int(), s.int(); e = s.num(); M = [[e] * q for _ in range(p)]; R, C = p, q
+        elif st == "dr":
+            i = s.int()
+            if not 0 <= i < R: raise ExpectExit
+            del M[i]; R -= 1
+        elif st == "dc":
+            j = s.int()
+            if not 0 <= j < C: raise ExpectExit
+            M = [[x for b, x in enumerate(r) if b != j] for r in M]; C -= 1
+        elif st == "st":
+            i, j = s.int(), s.int(); x = s.num()
+            if not 0 <= i < R: raise ExpectExit
+            if not 0 <= j < C: raise Skip
+            M[i][j] = x
+        elif st in ("cp", "eq", "se"): pass
+        elif st in ("pa", "ma", "pl", "mi"):
+            B = s.plain_table()
+            if (len(B), len(B[0]) if B else 0) != (R, C) or any(len(r) != C for r in B): raise ExpectExit
+            M = [[(a + b) if st in ("pa", "pl") else (a - b) for a, b in zip(ra, rb)] for ra, rb in zip(M, B)]
+        elif st == "sa": M = [[a + a for a in r] for r in M]
+        elif st == "ss": M = [[a - a for a in r] for r in M]
+        elif st == "tr":
+            if R == 0 or C == 0: raise Skip
+            M = T(M); R, C = C, R
+        elif st == "ms": x = s.num(); M = [[x * a for a in r] for r in M]
+        elif st == "dv": x = s.num(); M = [[fdiv(a, x) for a in r] for r in M]
+        elif st == "z": p, q = s.int(), s.int(); M = [[0.0] * q for _ in range(p)]; R, C = p, q
+        elif st == "df": M = [[1.0 if i == j else 0.0 for j in range(3)] for i in range(3)]; R, C = 3, 3
+        else: raise Skip
+    if R == 0 or C == 0: raise Skip
+    return M
+
+
+def vec_history(s, v):
+    v = list(v)
+    for _ in range(s.int()):
+        st = s.word()
+        if st == "rs": n = s.int(); v = [v[i] if i < len(v) else 0.0 for i in range(n)]
+        elif st == "as": n = s.int(); e = s.num(); v = [e] * n
+        elif st == "st":
+            i = s.int(); x = s.num()
+            if not 0 <= i < len(v): raise ExpectExit
+            v[i] = x
+        elif st in ("cp", "eq", "se"): pass
+        elif st in ("pa", "ma", "pl", "mi"):
+            b = s.plain_list()
+            if len(b) != len(v): raise ExpectExit
+            v = [(x + y) if st in ("pa", "pl") else (x - y) for x, y in zip(v, b)]
+        elif st == "sa": v = [x + x for x in v]
+        elif st == "ss": v = [x - x for x in v]
+        elif st in ("ms", "sm"): x = s.num(); v = [a * x for a in v]
+        elif st == "dv": x = s.num(); v = [fdiv(a, x) for a in v]
+        elif st == "z": v = [0.0] * s.int()
+        elif st == "df": v = [0.0] * 3
+        else: raise Skip
+    return v
 
 
 class Out:
@@ -70,18 +175,72 @@ def exact_sum(terms):
     return sum((Fraction(a) * Fraction(b) for a, b in terms), Fraction(0))
 
 
+DBL_MAX = sys.float_info.max
+DBL_MIN = 2.0 ** -1022          # smallest normal double
+DEN_MIN = 2.0 ** -1074          # smallest positive double
+OVF = Fraction(DBL_MAX) * (1 - Fraction(1, 2 ** 40))
+
+
 def close_sum(got, terms):
-    """got vs the exact sum of products a*b, within SLACK * sum|a*b|"""
+    """got vs the exact sum of the products a*b under the standard rounding model with gradual underflow
+    (fl(x op y) = (x op y)(1+d) + e, |d| <= eps, |e| <= 2^-1075 for a product, 0 for a sum):
+    |got - exact| <= SLACK * sum|a*b| + (#terms) * 2^-1074.  The model says nothing when an intermediate can overflow
+    (sum|a*b| reaches DBL_MAX): then inf / nan are accepted as well."""
     if any(math.isinf(a) or math.isnan(a) or math.isinf(b) or math.isnan(b) for a, b in terms): return True
     ex = exact_sum(terms); sc = sum(abs(Fraction(a) * Fraction(b)) for a, b in terms)
-    if math.isinf(got) or math.isnan(got): return float(sc) > 1e300
-    return abs(Fraction(got) - ex) <= Fraction(SLACK) * sc + Fraction(5e-324) * 8
+    if math.isinf(got) or math.isnan(got): return sc >= OVF
+    return abs(Fraction(got) - ex) <= Fraction(SLACK) * sc + Fraction(DEN_MIN) * max(8, len(terms))
+
+
+def close_norm(got, entries):
+    """got vs sqrt(sum a^2) computed as the code does (one accumulator of squares, then sqrt): with s^ = S(1+t) + e,
+    |t| <= (n+1) eps, |e| <= n 2^-1075 (underflowing squares), |sqrt(s^) - sqrt(S)| <= |t| sqrt(S) + sqrt|e|."""
+    if any(math.isinf(a) or math.isnan(a) for a in entries): return True
+    S = exact_sum([(a, a) for a in entries]); n = max(len(entries), 1)
+    if math.isinf(got) or math.isnan(got): return S >= OVF
+    ref = math.sqrt(float(S)) if S < Fraction(DBL_MAX) else math.inf
+    if math.isinf(ref): return got >= 1e153
+    return abs(got - ref) <= 16 * EPS * n * ref + math.sqrt(n * DEN_MIN)
+
+
+def f2ord(x):
+    b = struct.unpack("<q", struct.pack("<d", x))[0]
+    return b if b >= 0 else -(b & 0x7FFFFFFFFFFFFFFF)
+
+
+def ulps(x, k):
+    """the double k units in the last place above (k < 0: below) x"""
+    o = f2ord(x) + k
+    b = o if o >= 0 else ((-o) | (1 << 63)) - (1 << 64)
+    return struct.unpack("<d", struct.pack("<q", b))[0]
 
 
 # ---------------------------------------------------------------- generators
+ABS_LADDER = [DEN_MIN, 2 * DEN_MIN, 3 * DEN_MIN, 2.0 ** -1060, 2.0 ** -1040, 1e-310, ulps(DBL_MIN, -1000), ulps(DBL_MIN, -1), DBL_MIN,
+              ulps(DBL_MIN, 1), ulps(DBL_MIN, 1000), 1e-300, 1e-250, 1e-200, 1e-160, 1e-100, 1e-50, 1e-30, 1e-16, 1e-8, 1e-3, 1.0, 1e8,
+              1e100, 1e300, DBL_MAX]           # geometric ladder of absolute sizes, dense around the smallest normal double
+ULP_LADDER = [1, 2, 3, 10, 100, 1000, 2 ** 13, 2 ** 20, 2 ** 26, 2 ** 33]      # relative distances 1e-16 .. 2e-6
+
+
 def entry(rng, kind):
     if kind == "int": return float(rng.randint(-4, 4))
     if kind == "unit": return rng.uniform(-1, 1)
+    if kind == "dyadic": return rng.choice([0.0, 0.5, 1.0, 1.5, 2.0, -1.0, 3.0, 0.25, -0.5, 1.75, -2.0, 1.0, 0.0])
+    if kind == "wide":       # the whole exponent range, subnormals included
+        r = rng.random()
+        if r < 0.08: return rng.choice([0.0, -0.0])
+        return rng.choice([-1, 1]) * math.ldexp(rng.uniform(1, 2), rng.randint(-1075, 1023))
+    if kind == "tiny":       # the underflow region: subnormals, the neighbourhood of DBL_MIN, 1e-300
+        r = rng.random(); sg = rng.choice([-1, 1])
+        if r < 0.15: return rng.choice([0.0, -0.0])
+        if r < 0.45: return sg * DEN_MIN * rng.choice([1, 2, 3, rng.randint(1, 2 ** 20), rng.randint(1, 2 ** 52 - 1)])
+        if r < 0.75: return sg * ulps(DBL_MIN, rng.choice([-1, 1]) * rng.choice([0] + ULP_LADDER))
+        return sg * 10 ** rng.uniform(-323, -280)
+    if kind == "huge":       # the overflow region
+        r = rng.random(); sg = rng.choice([-1, 1])
+        if r < 0.1: return 0.0
+        if r < 0.4: return sg * ulps(DBL_MAX, -rng.choice([0] + ULP_LADDER))
+        return sg * 10 ** rng.uniform(150, 308)
     r = rng.random()
     if r < 0.12: return 0.0
     if r < 0.15: return -0.0
@@ -89,8 +248,162 @@ def entry(rng, kind):
     return rng.choice([-1, 1]) * 10 ** rng.uniform(-8, 8) * rng.uniform(1, 10)
 
 
-def rmat(rng, m, n, kind="mixed"): return [[entry(rng, kind) for _ in range(n)] for _ in range(m)]
-def rvec(rng, n, kind="mixed"): return [entry(rng, kind) for _ in range(n)]
+def rmat(rng, m, n, kind="mixed"):
+    if kind == "scaled":     # one common scale for the whole operand (a change of units): 1e-80 .. 1e80
+        sc = 10.0 ** rng.randint(-80, 80)
+        return [[entry(rng, "mixed") * sc for _ in range(n)] for _ in range(m)]
+    return [[entry(rng, kind) for _ in range(n)] for _ in range(m)]
+
+
+def rvec(rng, n, kind="mixed"): return rmat(rng, 1, n, kind)[0] if n else []
+
+
+def nudge(rng, x, step):
+    """x moved by the step-th rung of the ladders: an absolute amount when x is zero, a number of ulps otherwise"""
+    if x == 0: return rng.choice([-1, 1]) * ABS_LADDER[step % len(ABS_LADDER)]
+    return ulps(x, rng.choice([-1, 1]) * ULP_LADDER[step % len(ULP_LADDER)])
+
+
+SPECIAL = ["identity", "scalar", "diag-trace-n", "diag-det-1", "diag-pm1", "diag-generic", "permutation", "unit-triangular",
+           "identity-off", "identity-diag", "zero", "single", "ones", "sym-unit-diag", "full-trace-n", "negzero-identity",
+           "diag-norm-n", "nilpotent"]
+
+
+def special_square(rng, n, kind):
+    """structured n x n operands: matrices that share cheap invariants (diagonal, trace, determinant, norm, unit diagonal,
+    first row ...) with the unit or the zero matrix without being it, with simple dyadic entries so that the coincidences are
+    exact in floating point"""
+    Z = lambda: [[0.0] * n for _ in range(n)]
+    def diag(d):
+        M = Z()
+        for i, x in enumerate(d): M[i][i] = x
+        return M
+    dy = lambda: entry(rng, "dyadic")
+    I = diag([1.0] * n)
+    if kind == "identity": return I
+    if kind == "scalar": return diag([rng.choice([2.0, -1.0, 0.5, 3.0, 1.0 + 2.0 ** -52, 1e-300])] * n)
+    if kind == "diag-trace-n":
+        d = [dy() for _ in range(n - 1)]; d.append(float(n) - sum(d)); rng.shuffle(d); return diag(d)
+    if kind == "diag-det-1":
+        ks = [rng.randint(-3, 3) for _ in range(n - 1)]; ks.append(-sum(ks)); rng.shuffle(ks); return diag([2.0 ** k for k in ks])
+    if kind == "diag-pm1": return diag([rng.choice([1.0, -1.0]) for _ in range(n)])
+    if kind == "diag-generic": return diag([entry(rng, "mixed") for _ in range(n)])
+    if kind == "diag-norm-n":      # sum of squares = n: entries 0 / sqrt-free combinations (2,0,0,0 for n = 4; else +-1 and a swap of two to 0 / ... )
+        d = [rng.choice([1.0, -1.0]) for _ in range(n)]
+        if n >= 4: i = rng.randrange(n - 3); d[i:i + 4] = [2.0, 0.0, 0.0, 0.0]
+        rng.shuffle(d); return diag(d)
+    if kind == "permutation":
+        p = list(range(n)); rng.shuffle(p); M = Z()
+        for i in range(n): M[i][p[i]] = 1.0
+        return M
+    if kind == "unit-triangular":
+        M = diag([1.0] * n); up = rng.random() < 0.5
+        for i in range(n):
+            for j in range(n):
+                if (i < j) if up else (i > j): M[i][j] = dy()
+        return M
+    if kind == "identity-off":
+        M = diag([1.0] * n)
+        if n > 1:
+            i = rng.randrange(n); j = rng.choice([b for b in range(n) if b != i])
+            M[i][j] = rng.choice([-1, 1]) * rng.choice(ABS_LADDER)
+        return M
+    if kind == "identity-diag":
+        M = diag([1.0] * n); M[rng.randrange(n)][rng.randrange(n) if False else 0] = M[0][0]
+        i = rng.randrange(n); M[i][i] = rng.choice([0.0, -1.0, 2.0, ulps(1.0, 1), ulps(1.0, -1), -0.0, 1e-300]); return M
+    if kind == "zero": return Z()
+    if kind == "single":
+        M = Z(); M[rng.randrange(n)][rng.randrange(n)] = rng.choice([1.0, -2.0, entry(rng, "mixed"), DEN_MIN]); return M
+    if kind == "ones": return [[1.0] * n for _ in range(n)]
+    if kind == "sym-unit-diag":
+        M = diag([1.0] * n)
+        for i in range(n):
+            for j in range(i + 1, n): M[i][j] = M[j][i] = dy()
+        return M
+    if kind == "full-trace-n":
+        M = [[dy() for _ in range(n)] for _ in range(n)]
+        M[n - 1][n - 1] = float(n) - sum(M[i][i] for i in range(n - 1)); return M
+    if kind == "negzero-identity":
+        return [[1.0 if i == j else -0.0 for j in range(n)] for i in range(n)]
+    if kind == "nilpotent":
+        M = Z()
+        for i in range(n - 1): M[i][i + 1] = dy() or 1.0
+        return M
+    return I
+
+
+def special_vec(rng, n):
+    r = rng.random()
+    if r < 0.35: v = [0.0] * n; v[rng.randrange(n)] = rng.choice([1.0, -1.0, 2.0]); return v
+    if r < 0.5: return [0.0] * n
+    if r < 0.65: return [1.0] * n
+    if r < 0.8: return [rng.choice([1.0, -1.0]) for _ in range(n)]
+    return [entry(rng, "dyadic") for _ in range(n)]
+
+
+# ---- call histories (grammar in the module docstring); every generated history is valid and ends in a shape >= 1 x 1
+def hist_mat(rng, m, n, kind="mixed", final=None, steps=None):
+    """returns (text of the argument, final shape)"""
+    A = rmat(rng, m, n, kind); R, C = m, n; out = []
+    k = rng.choice([1, 1, 2, 2, 3, 4]) if steps is None else steps
+    def num(): return hx(entry(rng, kind if kind != "scaled" else "mixed"))
+    for _ in range(k):
+        r = rng.random()
+        if r < 0.34 or R == 0 or C == 0:       # Resize: every combination of growing / shrinking / keeping rows and columns
+            how = rng.choice(["cols-", "cols-", "rows-", "both-", "both+", "cols+", "rows+", "rows+cols-", "rows-cols+", "same", "zero"])
+            p, q = R, C
+            if "rows-" in how or how == "both-": p = rng.randint(1, max(R - 1, 1))
+            if "cols-" in how or how == "both-": q = rng.randint(1, max(C - 1, 1))
+            if "rows+" in how or how == "both+": p = R + rng.randint(1, 3)
+            if "cols+" in how or how == "both+": q = C + rng.randint(1, 3)
+            if how == "zero" and R > 0 and C > 0: p, q = rng.choice([(0, C), (R, 0), (0, 0)])
+            if (R == 0 or C == 0): p, q = max(p, 1) if R else rng.randint(1, 4), max(q, 1) if C else rng.randint(1, 4)
+            p, q = min(p, 8), min(q, 8)
+            out.append(f"rs {p} {q}"); R, C = p, q
+        elif r < 0.42: p, q = rng.randint(1, 6), rng.randint(1, 6); out.append(f"as {p} {q} {num()}"); R, C = p, q
+        elif r < 0.48 and R > 1: out.append(f"dr {rng.randrange(R)}"); R -= 1
+        elif r < 0.54 and C > 1: out.append(f"dc {rng.randrange(C)}"); C -= 1
+        elif r < 0.64: out.append(f"st {rng.randrange(R)} {rng.randrange(C)} {num()}")
+        elif r < 0.70: out.append(rng.choice(["cp", "eq", "se"]))
+        elif r < 0.80: out.append(f"{rng.choice(['pa', 'ma', 'pl', 'mi'])} {mtab(rmat(rng, R, C, kind))}")
+        elif r < 0.84: out.append(rng.choice(["sa", "ss"]))
+        elif r < 0.90: out.append("tr"); R, C = C, R
+        elif r < 0.95: out.append(f"{rng.choice(['ms', 'dv'])} {hx(entry(rng, 'mixed') or 2.0)}")
+        elif r < 0.98: p, q = rng.randint(1, 5), rng.randint(1, 5); out.append(f"z {p} {q}"); R, C = p, q
+        else: out.append("df"); R, C = 3, 3
+    if R == 0 or C == 0:
+        p, q = (final or (rng.randint(1, 4), rng.randint(1, 4))); out.append(f"rs {p} {q}"); R, C = p, q
+    if final is not None and (R, C) != tuple(final):
+        out.append(rng.choice([f"rs {final[0]} {final[1]}", f"rs {final[0]} {final[1]}", f"as {final[0]} {final[1]} {num()}"])); R, C = final
+    return f"{mtab(A)} {len(out)}" + "".join(" " + o for o in out), (R, C)
+
+
+def hist_vec(rng, n, kind="mixed", final=None):
+    v = rvec(rng, n, kind); N = n; out = []
+    def num(): return hx(entry(rng, kind if kind != "scaled" else "mixed"))
+    for _ in range(rng.choice([1, 1, 2, 3])):
+        r = rng.random()
+        if r < 0.3 or N == 0:
+            p = rng.choice([max(N - rng.randint(1, 3), 0 if rng.random() < 0.2 else 1), N + rng.randint(1, 3), N])
+            if N == 0: p = rng.randint(1, 5)
+            p = min(p, 8); out.append(f"rs {p}"); N = p
+        elif r < 0.4: p = rng.randint(1, 6); out.append(f"as {p} {num()}"); N = p
+        elif r < 0.55: out.append(f"st {rng.randrange(N)} {num()}")
+        elif r < 0.65: out.append(rng.choice(["cp", "eq", "se"]))
+        elif r < 0.78: out.append(f"{rng.choice(['pa', 'ma', 'pl', 'mi'])} {flist(rvec(rng, N, kind))}")
+        elif r < 0.83: out.append(rng.choice(["sa", "ss"]))
+        elif r < 0.93: out.append(f"{rng.choice(['ms', 'sm', 'dv'])} {hx(entry(rng, 'mixed') or 2.0)}")
+        elif r < 0.97: p = rng.randint(1, 5); out.append(f"z {p}"); N = p
+        else: out.append("df"); N = 3
+    if N == 0: p = final or rng.randint(1, 4); out.append(f"rs {p}"); N = p
+    if final is not None and N != final: out.append(f"rs {final}"); N = final
+    return f"{flist(v)} {len(out)}" + "".join(" " + o for o in out), N
+
+
+def hist_value(text, vector=False):
+    """the value a fresh object would have after the history (reference semantics)"""
+    r = Rd("hist x " + text)
+    return r.list() if vector else r.table()
 
 
 def generate(rng, tier):
